@@ -53,7 +53,7 @@ def run_shard(spec, seed, tier, stats):
     v = run_hypothesis(lambda scenario, schedule, schedule2: check_session(scenario, schedule, stats, schedule2=schedule2),
                        {'scenario': SE.SCENARIO(1, spec['max_boards'], spec['play_prob']), 'schedule': SE.SCHEDULE(),
                         'schedule2': SE.SCHEDULE()}, seed, spec['n'], tier == 'thorough')
-    return [v] if v else []
+    return [SE.reduce_violation(check_session, v)] if v else []
 
 
 def replay(rec):
